@@ -1983,7 +1983,14 @@ func (p *CodeBuilder) Send() *CodeBuilder {
 	}
 	val := p.stk.Pop()
 	ch := p.stk.Pop()
-	// TODO: check types
+	t, ok := getUnderlying(p.pkg, ch.Type).(*types.Chan)
+	if !ok || t.Dir() == types.RecvOnly {
+		src, pos, end := p.loadExpr(ch.Src)
+		p.panicCodeErrorf(pos, end, "invalid operation: cannot send to %s (type %v)", src, ch.Type)
+	}
+	if err := matchType(p.pkg, val, t.Elem(), "send"); err != nil {
+		panic(err)
+	}
 	emitSendStmt(p, ch.Val, val.Val)
 	return p
 }
